@@ -164,6 +164,7 @@ type c02Cfg struct {
 	name     string // Options.ClientName
 	addr     string
 	quota    string // connection-level quota key (addendum only)
+	otel     bool   // Options.OpenTelemetryInstrumentation (no SDK installed: spans are not recording); changes no byte
 }
 
 type c02Col struct {
@@ -454,6 +455,7 @@ func c02GenCfg(r *rand.Rand) *c02Cfg {
 	}
 	k.addr = []string{"127.0.0.1:51234", "[::1]:9000", "", "pipe"}[r.Intn(4)]
 	k.quota = string(genShortBytes(r))
+	k.otel = r.Intn(3) == 0
 	return k
 }
 
@@ -496,7 +498,7 @@ func c02Connect(k *c02Cfg) *c02Run {
 	hello.EncodeAware(&b, k.clientPV)
 	conn.Serve(b.Buf)
 	opt := ch.Options{Compression: k.comp, CompressionLevel: ch.CompressionLevel(k.level), ClientName: k.name, QuotaKey: k.quota,
-		ProtocolVersion: k.clientPV, ReadTimeout: 2 * time.Second}
+		ProtocolVersion: k.clientPV, ReadTimeout: 2 * time.Second, OpenTelemetryInstrumentation: k.otel}
 	for _, s := range k.settings {
 		opt.Settings = append(opt.Settings, ch.Setting{Key: s.k, Value: s.v, Important: s.imp})
 	}
